@@ -144,7 +144,7 @@ type c39Mutant struct {
 func cloneHeader(h *types.Header) *types.Header { return fix.RehashHeader(h) }
 
 func TestC39_InvalidBlocksRejected(t *testing.T) {
-	ev := harn.For("C39").Rule("solo chain with a generated prefix of 1-4 blocks of ONT/ONG transfers, a valid next block with 0-3 transfers, then EVERY single-field mutation named by the property (height -1/+1/+2, prev hash random / grand-parent / self, timestamp = and < parent, block root flipped, tx root flipped, tx list reordered/dropped/duplicated/foreign with stale root, signature removed/corrupted/by foreign key, bookkeeper replaced/duplicated, wrong state root) x {outsider: signature left stale, producer: re-signed by the legitimate bookkeeper} x {bytes->BlockFromRawBytes->AddBlock, ExecuteBlock+SubmitBlock}; every mutant is non-trivial; distinct by (prefix plan, mutation, flavour, path)").
+	ev := harn.For("C39").Rule("solo chain with a generated prefix of 1-4 blocks of ONT/ONG transfers, a valid next block with 0-3 transfers, then EVERY single-field mutation named by the property (height -1/+1/+2, prev hash random / grand-parent / self, timestamp = and < parent, block root flipped, tx root flipped, tx list reordered/dropped/duplicated/foreign with stale root, signature removed/corrupted/by foreign key, bookkeeper replaced/duplicated, wrong state root) x {outsider: signature left stale, producer: re-signed by the legitimate bookkeeper} x {bytes->BlockFromRawBytes->AddBlock, ExecuteBlock+SubmitBlock, AddBlock after the VALID header of that height was synced with AddHeaders}; every mutant is non-trivial; distinct by (prefix plan, mutation, flavour, path)").
 		Assume("blocks reach AddBlock only through BlockFromRawBytes/Block.Deserialization (p2p and consensus intake), where the transaction-root and duplicate checks live")
 	bk := fix.Key(fix.KP256, 0)
 	foreign := fix.Key(fix.KP256, 7)
@@ -416,6 +416,60 @@ func TestC39_InvalidBlocksRejected(t *testing.T) {
 		}
 		if err := ch.Open(); err != nil {
 			t.Fatal(err)
+		}
+		// header-first delivery: the node has synced the VALID header of the next height (AddHeaders, as the
+		// header-sync path does) before the mutant blocks arrive; every mutant must still be rejected
+		// and leave the ledger as it is (mutations outside the hashed header fields — signatures,
+		// bookkeepers, transaction list — give blocks with the cached header's hash)
+		{
+			rawH := good.Header.ToArray()
+			hdr, err := types.HeaderFromRawBytes(rawH)
+			if err != nil {
+				t.Fatal(err)
+			}
+			if err := ch.LS.AddHeaders([]*types.Header{hdr}); err != nil {
+				t.Fatalf("plan=%v: the valid next header is rejected by AddHeaders: %v", plan, err)
+			}
+			before2, err := c39Observe(ch.LS, accts)
+			if err != nil {
+				t.Fatal(err)
+			}
+			for _, m := range muts {
+				desc := fmt.Sprintf("plan=%v next=%d mut=%q resigned=%v path=%s", plan, nNext, m.name, m.resigned, "valid header synced first, then bytes+AddBlock")
+				var gotErr error
+				func() {
+					defer func() {
+						if r := recover(); r != nil {
+							t.Fatalf("%s: panic %v", desc, r)
+						}
+					}()
+					b2, err := types.BlockFromRawBytes(m.blk.ToArray())
+					if err != nil {
+						gotErr = fmt.Errorf("decode: %v", err)
+						return
+					}
+					sr := goodRes.MerkleRoot
+					if m.stateRoot != nil {
+						sr = *m.stateRoot
+					}
+					gotErr = ch.LS.AddBlock(b2, nil, sr)
+				}()
+				if m.mustErr && gotErr == nil {
+					t.Fatalf("%s: invalid block was accepted without error", desc)
+				}
+				after, err := c39Observe(ch.LS, accts)
+				if err != nil {
+					t.Fatalf("%s: ledger unreadable afterwards: %v", desc, err)
+				}
+				if fmt.Sprint(after) != fmt.Sprint(before2) {
+					t.Fatalf("%s (returned %v): ledger changed\nbefore %+v\nafter  %+v", desc, gotErr, before2, after)
+				}
+				if m.blk.Hash() == good.Hash() {
+					ev.Class("header-first:mutant-has-the-cached-header-hash")
+				}
+				ev.Class("header-first")
+				ev.Case(true, desc)
+			}
 		}
 		// the unmutated block is still accepted and gives the expected state
 		raw := good.ToArray()
